@@ -451,4 +451,77 @@ example : LenForm 5 [0x05] := Or.inl ⟨by decide, rfl⟩
 example : LenForm 5 [0x82, 0x00, 0x05] := Or.inr ⟨[0x00, 0x05], by decide, by decide, by decide, rfl⟩
 example : LenForm 300 [0x82, 0x01, 0x2c] := Or.inr ⟨[0x01, 0x2c], by decide, by decide, by decide, rfl⟩
 
+/-! ## From the value decoder to what the caller holds: REAL in the varbind decoder, names, every operation -/
+
+/-- **C02.real_in_varbind**: a REAL element (tag 9, any definite length form, any position) is decoded by the
+varbind value decoder exactly as `decodeReal` reads its contents (`real_special`, `real_decimal`,
+`real_binary_sound` say what that is), and reaches Python as that float -/
+theorem real_in_varbind (c ls rest : Bytes) (hf : LenForm c.length ls) (f : FloatVal)
+    (hd : decodeReal (c ++ rest) (hdrOf 0x09 c.length) = .ok f) :
+    valueFromBer (0x09 :: ls ++ (c ++ rest)) = .ok (.real f, rest) ∧ valueToPy (.real f) = .ok (.float f) := by
+  refine ⟨?_, rfl⟩
+  rw [valueFromBer_general 0x09 (by decide) c ls hf rest]
+  have hh : hdrOf 0x09 c.length = { cls := 0, constructed := false, tag := 9, length := c.length } := by
+    simp [hdrOf]
+  rw [hh] at hd ⊢
+  simp only [decodeValue]
+  have : (9 : Nat) = tagReal := rfl
+  simp [tagBool, tagInt, tagOctetString, tagNull, tagObjectId, tagObjectDescriptor, tagReal, hd, Outcome.bind]
+
+/-- a value that converts to a Python object is a data value -/
+theorem isData_of_toPy (v : Value) (p : PyScalar) (h : valueToPy v = .ok p) : v.isData = true := by
+  cases v <;> simp_all [valueToPy, Value.isData]
+
+/-- **C02.name_key**: the name of a varbind whose OID element holds the DER content of `arcs` reaches the caller as
+the dotted text of exactly those arcs (`C08.print_parse` for received names) -/
+theorem name_key (a0 a1 : Nat) (rest : List Nat) (h0 : a0 ≤ 2) (h1 : a1 ≤ 39) (hr : ∀ a ∈ rest, a < 2 ^ 32)
+    (oid : Bytes) (hb : derOid (a0 :: a1 :: rest) = some oid) :
+    oidToStr oid = .ok (dotted (a0 :: a1 :: rest)) := oidToStr_der a0 a1 rest h0 h1 hr oid hb
+
+/-- **C02.getnext_delivers**: one step of a GetNext walk: the row the agent sent (name = DER of `arcs`, value = any
+content encoding of `sv` in any length form) is handed to the caller as (dotted name, Python value) -/
+theorem getnext_delivers (sv : SV) (c ls : Bytes) (hc : Content sv c) (hf : LenForm c.length ls)
+    (a0 a1 : Nat) (rest : List Nat) (h0 : a0 ≤ 2) (h1 : a1 ≤ 39) (hr : ∀ a ∈ rest, a < 2 ^ 32)
+    (oid : Bytes) (hb : derOid (a0 :: a1 :: rest) = some oid)
+    (r es ei : Int) (v : Value) (hv : valueFromBer (sv.tag :: ls ++ (c ++ [])) = .ok (v, []))
+    (it it' : GetIter) (hacc : it.setNextOid oid = (it', true)) :
+    opGetNextToPython (.getResponse r es ei [⟨oid, v⟩]) (some it) =
+      (.value (.pair oid (dotted (a0 :: a1 :: rest)) (py sv)), some it') := by
+  obtain ⟨v', h1', h2'⟩ := value_sound sv c ls [] hc hf
+  rw [hv] at h1'
+  cases h1'
+  have hdat := isData_of_toPy v (py sv) h2'
+  simp only [opGetNextToPython, hacc, Bool.not_true, Bool.false_eq_true, if_false, hdat]
+  rw [name_key a0 a1 rest h0 h1 hr oid hb, h2']
+  rfl
+
+/-- when every data varbind of a reply converts (name and value), the conversion loop of `get_many` succeeds -/
+theorem dictSpec_some : ∀ (vars : List VarBind) (acc : List (Bytes × PyScalar)),
+    (∀ var ∈ vars, var.value.isData = true → (∃ k, oidToStr var.oid = .ok k) ∧ ∃ p, valueToPy var.value = .ok p) →
+    ∃ d, C07.dictSpec vars acc = some d
+  | [], acc, _ => ⟨acc, rfl⟩
+  | var :: more, acc, h => by
+    unfold C07.dictSpec
+    by_cases hd : var.value.isData = true
+    · obtain ⟨⟨k, hk⟩, ⟨p, hp⟩⟩ := h var (by simp) hd
+      simp only [hd, Bool.not_true, Bool.false_eq_true, if_false, hk, hp]
+      exact dictSpec_some more _ (fun x hx => h x (by simp [hx]))
+    · have : var.value.isData = false := by cases hv : var.value.isData <;> simp_all
+      simp only [this, Bool.not_false, if_true]
+      exact dictSpec_some more acc (fun x hx => h x (by simp [hx]))
+
+/-- **C02.get_many_delivers**: `get_many` on a reply all of whose data varbinds convert returns a dict, and the dict
+maps each dotted name to the converted value of the last data varbind carrying that name (`C07.lastBinding`) —
+every value the agent bound to a name that is not rebound later reaches the caller under that name -/
+theorem get_many_delivers (r es ei : Int) (vars : List VarBind)
+    (h : ∀ var ∈ vars, var.value.isData = true → (∃ k, oidToStr var.oid = .ok k) ∧ ∃ p, valueToPy var.value = .ok p) :
+    ∃ d, opGetManyToPython (.getResponse r es ei vars) = .value (.dict d) ∧
+      ∀ key, C07.dlook key d = C07.lastBinding key vars none := by
+  obtain ⟨d, hd⟩ := dictSpec_some vars [] h
+  refine ⟨d, ?_, fun key => ?_⟩
+  · simp only [opGetManyToPython]
+    rw [C07.get_many_dict vars [], hd]
+  · have := C07.get_many_mapping vars [] d key hd
+    simpa [C07.dlook] using this
+
 end GufoSnmp.C02
